@@ -162,5 +162,6 @@ func init() {
 				"curve.constSQRT_AD_MINUS_ONE", "curve.constINVSQRT_A_MINUS_D", "internal/field.SQRT_M1", "curve.RISTRETTO_BASEPOINT_COMPRESSED", "curve.RISTRETTO_BASEPOINT_POINT")
 		}
 		arithmeticFoundations(c)
+		groupFoundations(c, true)
 	}
 }
